@@ -177,7 +177,13 @@ namespace bloch::update {
                 }
                 if (start == pos)
                     break;
-                int value = std::stoi(v.substr(start, pos - start));
+                int value = 0;
+                try {
+                    value = std::stoi(v.substr(start, pos - start));
+                } catch (const std::exception&) {
+                    // A component that does not fit an int: not a version we can compare.
+                    return SemVer{};
+                }
                 if (idx == 0)
                     sem.major = value;
                 else if (idx == 1)
